@@ -31,6 +31,25 @@ def holdsPrint (i : Info) (outBytes : Bytes) : String :=
 
 def handle (op : String) (args : List String) (impl : String) : Option (String × String) :=
   match op with
+  | "cliname" =>
+    -- the report of an empty file named <name>: "<name>: \n" with the name escaped like every other displayed string
+    match args with
+    | [h] =>
+      (bytesOfHexStr h).map fun nm =>
+        let model := "out " ++ hexOfBytesStr (encodeRunes (pathPrefix (decodeUnits nm) ++ [10]))
+        let hres := match impl.splitOn " " with
+          | ["out", hx] => match bytesOfHexStr hx with
+            | some b =>
+              let us := decodeUnits b
+              if us.any (fun u => match u with | .bad _ => true | .rune r => isControlRune r && r ≠ 10) then
+                "FAILS no_raw_control: a control character or stray byte of the file name reaches standard output unescaped"
+              else if (b.filter (· = 10)).length ≠ 1 then
+                s!"FAILS line_count: {(b.filter (· = 10)).length} output lines for a one-line report"
+              else "holds"
+            | none => "FAILS unparsable impl result"
+          | _ => "FAILS unparsable impl result"
+        (model, hres)
+    | _ => none
   | "print" =>
     match Info.parse args with
     | some i =>
